@@ -1253,6 +1253,13 @@ func VerifyFunction(p *Program, fn *ssa.Function, fc *FuncContract) (*Ctx, error
 	}
 	c := NewCtx(p, displayName(fn))
 	c.loopMods = dry.loopMods
+	c.sortDecls = append([]string{}, dry.sortDecls...)
+	for k, v := range dry.sortName {
+		c.sortName[k] = v
+	}
+	for k, v := range dry.usedSorts {
+		c.usedSorts[k] = v
+	}
 	c.pre = map[string]string{}
 	for n, s := range dry.compSort {
 		if !strings.HasPrefix(n, "RV_") {
